@@ -43,6 +43,21 @@ Theorem C17_to_globs : forall to_cidrs,
 Proof. exact to_globs_tile. Qed.
 Print Assumptions C17_to_globs.
 
+(* the executable decomposition used in the correspondence commands (compared with the real iprange_to_cidrs on every
+   run) meets that specification, so for it the conclusion holds outright *)
+Theorem C17_to_cidrs_exec : forall lo hi, 0 <= lo <= hi /\ hi < 2 ^ 32 ->
+  exists cs, to_cidrs_exec lo hi = Ok cs /\ cidrs_tile cs lo hi.
+Proof. exact to_cidrs_exec_spec. Qed.
+Print Assumptions C17_to_cidrs_exec.
+
+Theorem C17_to_globs_exec : forall lo hi, 0 <= lo <= hi /\ hi < 2 ^ 32 ->
+  exists gl ivs, iprange_to_globs to_cidrs_exec (4, lo) (4, hi) = Ok gl /\
+                 Forall2 (fun g iv => glob_denotes g (fst iv) (snd iv)) gl ivs /\
+                 chain ivs lo hi /\
+                 (List.length gl = 1%nat <-> glob_shaped lo hi).
+Proof. exact to_globs_tile_exec. Qed.
+Print Assumptions C17_to_globs_exec.
+
 (* what the two notions used above mean: a denoted glob is valid and converts to exactly that interval of matching
    addresses; a chain of intervals is ascending, pairwise disjoint and covers exactly [lo, hi] *)
 Theorem C17_glob_denotes : forall g a b, glob_denotes g a b ->
